@@ -38,6 +38,7 @@ VERIF_DIR = os.path.dirname(os.path.dirname(os.path.abspath(__file__)))
 PROCS_SRC = '''
 from __future__ import annotations
 from exo import proc, config
+from exo.libs.externs import sin, relu
 
 # ---------------------------------------------------------------- callees
 @proc
@@ -151,6 +152,22 @@ def zero2_fixed_off(x: f32[16, 16]):
         for j in seq(0, 6):
             x[i + 1, j + 2] = 0.0
 
+@proc
+def set_gt(k: index, x: [f32][8]):
+    for i in seq(0, 8):
+        if k > i:
+            x[i] = 1.0
+
+@proc
+def neg(n: size, x: [f32][n], y: [f32][n]):
+    for i in seq(0, n):
+        x[i] = -y[i]
+
+@proc
+def sine(n: size, x: [f32][n], y: [f32][n]):
+    for i in seq(0, n):
+        x[i] = sin(y[i])
+
 @config
 class CfgG:
     s: stride
@@ -177,6 +194,27 @@ def fill_if2(n: size, flag: bool, x: [f32][n]):
             x[i] = 2.0
 
 # ---------------------------------------------------------------- procedures holding the blocks
+@proc
+def b_zero2_off2(A: f32[16, 16]):
+    for i in seq(0, 4):
+        for j in seq(0, 6):
+            A[i, j + 2] = 0.0
+
+@proc
+def b_neg(a: f32[8], b: f32[8]):
+    for i in seq(0, 8):
+        a[i] = -b[i]
+
+@proc
+def b_sin(a: f32[8], b: f32[8]):
+    for i in seq(0, 8):
+        a[i] = sin(b[i])
+
+@proc
+def b_relu(a: f32[8], b: f32[8]):
+    for i in seq(0, 8):
+        a[i] = relu(b[i])
+
 @proc
 def b_strides_same(a: f32[8, 8]):
     CfgG.s = stride(a, 0)
@@ -525,6 +563,15 @@ PAIRS = [
     ("rank2_no_window", "b_zero2", "i", "zero2_fixed_off", "instance", "rank-2 buffer argument that is not a window"),
     ("rank2_no_window_offset", "b_zero2", "i", "zero2_fixed", "reject",
      "NON-INSTANCE index: A[i + 1, j + 2] against x[i, j], x not a window (no offset possible)"),
+    ("rank2_no_window_offset2", "b_zero2_off2", "i", "zero2_fixed", "reject",
+     "NON-INSTANCE index in the SECOND dimension only: A[i, j + 2] against x[i, j], x not a window"),
+    ("guard_lt_vs_gt", "b_lt", "i", "set_gt", "instance", "guard i < m against k > i"),
+    ("guard_le_vs_gt", "b_le", "i", "set_gt", "instance", "guard i <= m against k > i: k == m + 1"),
+    ("guard_ge_vs_gt", "b_ge", "i", "set_gt", "reject", "NON-INSTANCE comparison: i >= m against k > i (opposite direction)"),
+    ("negation", "b_neg", "i", "neg", "instance", "unary minus"),
+    ("negation_missing", "b_copy", "i", "neg", "reject", "NON-INSTANCE operator: b[i] against -y[i]"),
+    ("extern", "b_sin", "i", "sine", "instance", "extern function"),
+    ("extern_differs", "b_relu", "i", "sine", "reject", "NON-INSTANCE extern: relu against sin"),
     ("transpose", "b_transp", "i", "transp", "instance", "two rank-2 windows, one read transposed"),
     ("not_transposed", "b_not_transp", "i", "transp", "reject", "NON-INSTANCE index: B[i, j] against y[j, i]"),
     ("shorter_callee", "b_two_loops", "i", "fill", "instance", "the block (two loops) is longer than the callee (one loop)"),
